@@ -118,7 +118,7 @@ LINKS = {
     },
     "C14": {
         "modules": ["RtrProofs.CLinkMisc"],
-        "modules_extra": ["RtrProofs.CLinkErr", "RtrProofs.CLinkRecv", "RtrProofs.CLinkSync", "RtrProofs.CLinkIo", "RtrProofs.CLinkFooter", "RtrProofs.CLinkFooterModel"],
+        "modules_extra": ["RtrProofs.CLinkErr", "RtrProofs.CLinkRecv", "RtrProofs.CLinkSync", "RtrProofs.CLinkIo", "RtrProofs.CLinkFooter", "RtrProofs.CLinkFooterModel", "RtrProofs.CLinkConv"],
         "theorems": ["Rtr.CLink.Err.rtr_send_error_pdu_eq", "Rtr.CLink.Err.error_report_never_for_error_report", "Rtr.CLink.Err.error_report_one_call", "Rtr.CLink.Err.error_report_length_consistent", "Rtr.CLink.Err.error_report_echo_exact", "Rtr.CLink.Err.error_report_no_uninitialised_byte", "Rtr.CLink.Err.rtr_send_pdu_eq", "Rtr.CLink.Err.send_pdu_sends", "Rtr.CLink.Err.send_pdu_caller_unchanged", "Rtr.CLink.Err.rtr_send_error_pdu_from_host_eq", "Rtr.CLink.Err.from_host_header_bytes",
                      "Rtr.CLink.Recv.receive_pdu_echo", "Rtr.CLink.Recv.receive_pdu_buffer_on_error", "Rtr.CLink.serial_query_contents", "Rtr.CLink.reset_query_contents",
                      "Rtr.CLink.lrtr_convert_long_eq", "Rtr.CLink.lrtr_convert_short_eq",
@@ -127,9 +127,10 @@ LINKS = {
                      "Rtr.CLink.Footer.footer_fixed_round_trip", "Rtr.CLink.Footer.footer_error_round_trip",
                      "Rtr.CLink.Footer.convFooter_eq_swapWords", "Rtr.CLink.Footer.footer_C_eq_model", "Rtr.CLink.Footer.footer_C_eq_model_ipv6",
                      "Rtr.CLink.Footer.footer_C_eq_model_error_to_network", "Rtr.CLink.Footer.footer_C_eq_model_error_to_host",
+                     "Rtr.CLink.Footer.header_C_eq_model", "Rtr.CLink.Footer.to_network_C_eq_model", "Rtr.CLink.Footer.footer_to_host_C_eq_model",
                      "Rtr.CLink.tr_send_all_eq", "Rtr.CLink.tr_send_all_of_world", "Rtr.CLink.tr_send_all_chunks", "Rtr.CLink.tr_send_all_timeouts"],
         "functions": ["rtr_send_error_pdu", "rtr_send_pdu", "rtr_send_error_pdu_from_host", "rtr_receive_pdu", "rtr_send_serial_query", "rtr_send_reset_query", "lrtr_convert_long", "lrtr_convert_short", "rtr_pdu_convert_header_byte_order", "rtr_pdu_header_to_host_byte_order",
-                      "rtr_pdu_convert_footer_byte_order", "tr_send_all"],
+                      "rtr_pdu_convert_footer_byte_order", "rtr_pdu_to_network_byte_order", "rtr_pdu_footer_to_host_byte_order", "tr_send_all"],
         "ops": "conv+io+proto",
     },
 }
@@ -301,6 +302,8 @@ def ops_conv(r, n):
                         w = [(enc >> 24) & 255, (enc >> 16) & 255, (enc >> 8) & 255, enc & 255]
                         body[8:12] = w if d == 1 else list(reversed(w))
                     ops.append("footer %d %s" % (d, bytes(body).hex()))
+                    if d == 0 and ln >= 8:
+                        ops.append("tonet %s" % bytes(body).hex())
     return ops
 
 
